@@ -14,6 +14,9 @@ CONSTANTS
   SNames = {"d1", "d2"}
   Alpha <- AlphaS
   ParamSites <- AllFields
+  XUses <- XUsesS
+  XParams = {"x1", "x2"}
+  XVals <- XValsS
   NumParams = {"p1", "p2"}
   StrParams = {"q1", "q2"}
   SupVals = {0, 2, 300}
